@@ -1097,6 +1097,23 @@ def shareable_default(ctx, res):
                 continue
             neg = norm(c.func) == "any"
             sites.append(("BaseTuple.__init__", g.elt, var, neg, c))
+    # ... or a flag updated per member inside the loop:
+    # `constant_default = <pred on the member's kind>`
+    if not sites:
+        for lp in ast.walk(fn):
+            if not isinstance(lp, ast.For):
+                continue
+            for a in ast.walk(lp):
+                if isinstance(a, ast.Assign) and len(a.targets) == 1 \
+                        and isinstance(a.targets[0], ast.Name) \
+                        and "DefaultValue." in norm(a.value) \
+                        and isinstance(a.value, (ast.Compare, ast.BoolOp)):
+                    names = [n.id for n in ast.walk(a.value)
+                             if isinstance(n, ast.Name)
+                             and "default" in n.id and "type" in n.id]
+                    if names:
+                        sites.append(("BaseTuple.__init__", a.value, names[0],
+                                      False, a))
     # Union.__init__: if <pred on first_default_value_type>: default = ...
     fn = repo.func(T, "Union.__init__")
     for i in ast.walk(fn):
